@@ -151,9 +151,11 @@ theorem callbacks_see_their_own_path (env : Env) (m : Mode) (s : Schema) (tag : 
 /-! ## context values -/
 
 /-- regenerated fact (go/ast, `NewExecCtx`): the constructor that takes an `ExecCtx` from the pool
-    assigns its value map -/
+    assigns EVERY field of the type — the value map among them, whatever it is called -/
 theorem exec_ctx_resets_values :
-    (((Gen.ctorAssigns.find? (fun p => p.1 == "NewExecCtx")).map (·.2)).getD []).contains "m" = true := by decide
+    (let fields := ((Gen.typeFields.find? (fun p => p.1 == "ExecCtx")).map (·.2)).getD []
+     let assigned := ((Gen.ctorAssigns.find? (fun p => p.1 == "NewExecCtx")).map (·.2)).getD []
+     !fields.isEmpty && fields.all (fun f => assigned.contains f)) = true := by decide
 
 /-- **`ctx.Get` returns exactly the values passed to THIS call through `WithCtxValue`**: the last value
     given for the key, nil for a key this call did not pass — whatever ANY sequence of earlier
@@ -175,6 +177,16 @@ theorem ctx_get_absent_key (dirt : CtxVals.M) (earlier : List (List (String × S
     have := h x (List.mem_reverse.mp hx)
     simpa using this
   rw [this]; rfl
+
+/-- the last of several values given for one key is the one the callbacks see -/
+theorem ctx_last_value_wins (opts : List (String × String)) (k v : String) :
+    CtxVals.passed (opts ++ [(k, v)]) k = some v := by
+  simp [CtxVals.passed]
+
+/-- a value given for another key changes nothing for this one -/
+theorem ctx_other_key_untouched (opts : List (String × String)) (k k' v : String) (h : (k' == k) = false) :
+    CtxVals.passed (opts ++ [(k', v)]) k = CtxVals.passed opts k := by
+  simp [CtxVals.passed, h]
 
 /-- the reset is what the claim rests on: without it a value of an earlier execution shows through -/
 theorem ctx_without_reset_leaks :
